@@ -1,11 +1,17 @@
 import InTotoModel.Props.C15
+import InTotoModel.Lemmas.TimeParse
 /-
   C06 — An expired layout is never accepted.
 
-  `L.expires` and `env.now path` are absolute instants (seconds; the reading of RFC 3339 text with
-  any UTC offset into an instant is chrono's parser — library behaviour, modelled in Model/Time.lean
-  and validated differentially).  `env.now path` is the clock reading made while verifying the
-  layout found at `path` (the empty path for the top level).
+  `L.expires` and `env.now path` are absolute instants (`Time.key`s).  `env.now path` is the clock
+  reading made while verifying the layout found at `path` (the empty path for the top level).
+
+  How the text of `expires` becomes an instant is `Model/Time.lean` (chrono's RFC 3339 reader,
+  conversion to UTC, truncation to the second): the second half of this file proves that every
+  notation of an instant — any UTC offset within ±23:59, `Z`/`z`, `T`/`t`/space, `-`/U+2212, with or
+  without a fraction — reads as that same instant, that instants are ordered as chrono orders them, and
+  that the text the library writes reads back.  The tie of that model to chrono and to the layout
+  reader is the `rfc3339` / `fmttime` correspondence of this check.
 -/
 namespace InToto.Verify
 
@@ -49,4 +55,68 @@ theorem c06_sublayouts_not_expired {env : Env K} {ord : Ord} (hord : ord.Valid)
   cases hL2
   exact hle
 
+/-- The expiry clause in terms of the document's text: if the layout's expiry is the instant its
+    `expires` text denotes (in whatever notation), kept to the second, and that is earlier than the
+    clock, verification fails. -/
+theorem c06_expired_text_is_rejected {env : Env K} {ord : Ord}
+    (fuel : Nat) (path : List Str) (b : Block K) (keys : List K) (dir : Dir K) (name : Str) (s : Link)
+    (L : Layout K) (hb : b.signed = .layout L) (text : Str) (i : Time.Time)
+    (hread : Time.parseRfc3339 text = some i) (hexpires : L.expires = (Time.truncWhole i).key)
+    (hexp : (Time.truncWhole i).key < env.now path) :
+    (verify env ord fuel path b keys dir name).1 ≠ .ok s :=
+  c06_expired_is_rejected fuel path b keys dir name s L hb (by rw [hexpires]; exact hexp)
+
 end InToto.Verify
+
+namespace InToto.Time
+
+/-- "Read as an absolute time whatever UTC-offset notation the document uses": the text of instant
+    `t` in any valid notation reads as `t` (local year 0000–9999; a leap second only on second 59). -/
+theorem c06_every_notation_reads_as_the_instant (t : Time) (n : Notation) (hv : n.Valid)
+    (hyear : 0 ≤ (civilFromDays ((t.secs + n.offMin * 60) / 86400)).y ∧
+             (civilFromDays ((t.secs + n.offMin * 60) / 86400)).y ≤ 9999)
+    (hnanos : t.nanos < 2000000000)
+    (hleap : t.nanos ≥ 1000000000 → t.secs % 60 = 59)
+    (hfrac : n.fraction = false → t.nanos % 1000000000 = 0) :
+    parseRfc3339 (render t n) = some t := parse_render t n hv hyear hnanos hleap hfrac
+
+/-- Two notations of one instant (different offsets, separators, zone spellings) read alike. -/
+theorem c06_offset_notation_is_irrelevant (t : Time) (n n' : Notation) (hv : n.Valid) (hv' : n'.Valid)
+    (hyear : 0 ≤ (civilFromDays ((t.secs + n.offMin * 60) / 86400)).y ∧
+             (civilFromDays ((t.secs + n.offMin * 60) / 86400)).y ≤ 9999)
+    (hyear' : 0 ≤ (civilFromDays ((t.secs + n'.offMin * 60) / 86400)).y ∧
+             (civilFromDays ((t.secs + n'.offMin * 60) / 86400)).y ≤ 9999)
+    (hnanos : t.nanos < 2000000000)
+    (hleap : t.nanos ≥ 1000000000 → t.secs % 60 = 59)
+    (hfrac : n.fraction = false → t.nanos % 1000000000 = 0)
+    (hfrac' : n'.fraction = false → t.nanos % 1000000000 = 0) :
+    parseRfc3339 (render t n) = parseRfc3339 (render t n') := by
+  rw [parse_render t n hv hyear hnanos hleap hfrac, parse_render t n' hv' hyear' hnanos hleap hfrac']
+
+/-- The comparison the verifier makes on keys is chrono's order on instants. -/
+theorem c06_instant_order {t t' : Time} (h : t.nanos < 2000000000) (h' : t'.nanos < 2000000000) :
+    t.key < t'.key ↔ t.secs < t'.secs ∨ (t.secs = t'.secs ∧ t.nanos < t'.nanos) := key_lt_iff h h'
+
+/-- What the library writes for an expiry reads back as that expiry kept to the second. -/
+theorem c06_written_expiry_reads_back (t : Time) (h : t.Representable) :
+    parseRfc3339 (fmtRfc3339 t) = some (truncWhole t) := parse_fmt t h
+
+/-- The calendar arithmetic: the date of a day number is an existing date with that day number. -/
+theorem c06_calendar (z : Int) :
+    daysFromCivil (civilFromDays z).y (civilFromDays z).m (civilFromDays z).d = z ∧
+    1 ≤ (civilFromDays z).m ∧ (civilFromDays z).m ≤ 12 ∧ 1 ≤ (civilFromDays z).d ∧
+    (civilFromDays z).d ≤ daysInMonth (civilFromDays z).y (civilFromDays z).m := civil_facts z
+
+/- Non-vacuity: a leap second, written five and a half hours east with U+2212-free `+`, and the same
+   instant written in UTC, both read as (1483228799 s, 1.5·10⁹ ns); the notation is valid. -/
+example : parseRfc3339 "2017-01-01 05:29:60.5+05:30".toList = some ⟨1483228799, 1500000000⟩ := by decide
+example : parseRfc3339 "2016-12-31T23:59:60.500000000Z".toList = some ⟨1483228799, 1500000000⟩ := by decide
+example : (⟨330, ' ', none, '-', true, []⟩ : Notation).Valid := by
+  refine ⟨by decide, by decide, Or.inr (Or.inr rfl), ?_, Or.inl rfl, ?_⟩ <;> simp
+example : render ⟨1483228799, 1500000000⟩ ⟨330, ' ', none, '-', true, []⟩ = "2017-01-01 05:29:60.500000000+05:30".toList := by
+  decide
+example : (⟨1483228799, 1500000000⟩ : Time).Representable := by
+  refine ⟨by decide, by decide, by decide, by decide⟩
+example : fmtRfc3339 ⟨1483228799, 1500000000⟩ = "2016-12-31T23:59:60Z".toList := by decide
+
+end InToto.Time
